@@ -221,7 +221,7 @@ def _systematic_cases(index, count):
 
 def plan(tier, seed):
     nshards = 16
-    examples = 300 if tier == "quick" else 1500
+    examples = 300 if tier == "quick" else 8000
     tasks = [{"engine": "systematic", "index": i, "count": 4} for i in range(4)]
     tasks += [{"engine": "hyp", "examples": examples, "seed": seed * 1000 + i} for i in range(nshards)]
     return tasks
